@@ -21,6 +21,8 @@ CFG = {
         "oracle (Lean, exact rationals): shoelace areas; |A∩B| = Σ wᵢwⱼ·area(Tᵢ∩Tⱼ) over origin-fan triangles with Sutherland–Hodgman clipping; "
         "membership by Geo.locate (C01 specification) at the sample points (x0+u(i/2+3/8), y0+u(j/2+5/16)) farther than 8·(w+h)·2^-29 from every input "
         "edge; area tolerance 4·perimeter·D·2^-29 with perimeter and D replaced by their L1 upper bounds; lengths by rational square-root enclosures",
+        "engine totality is part of the assumption: i_overlay 2.0.5 was observed (by the C20 check) not to return on inputs above ~32768 segments "
+        "(parallel-sort path); the generated operands here stay far below that size",
         "spec adequacy (S2): for a valid polygon, even-odd parity over all its rings = inside (Jordan) — hypothesis of booleanOp_pointwise_partial, "
         "validated numerically by the membership clause",
     ],
@@ -40,7 +42,7 @@ MANIFEST = {
             "clockwise holes and the engine's region (polygonFromShape_closed / _winding / _inside), hence inside(result) ⇔ op(evenOdd A, evenOdd B) "
             "(booleanOp_evenOdd) and, with the Jordan-type assumption S2 as an explicit hypothesis, ⇔ op(inside A, inside B) (booleanOp_pointwise_partial); "
             "the indicator identities behind the three area identities; unary_union's fill-rule choice selects the union of a consistently wound collection "
-            "and equals the fold of pairwise unions (unaryUnion_region_partial, foldUnion_region); clip(invert) and clip(¬invert) partition the line (clip_partition). "
+            "and equals the fold of pairwise unions (unaryUnion_region_partial, foldUnion_region); clip(invert) and clip(¬invert) partition the line (clip_partition); the oracle's membership test Geo.locate = Inside is the region of the theorems off the rings (insideSpec_eq_mpInside); EngineSpec is satisfiable with a non-empty far-set (E1_spec). "
             "Every run: the engine's recorded answers instantiate the parameter and the model's output must equal the API's; the API's results are judged by an "
             "exact oracle written in Lean (expected areas from |A|, |B| and the exact |A∩B|, membership at sample points off the input edges, ring direction and "
             "closedness, unary_union vs fold, clip pieces / coverage / length conservation).",
